@@ -29,7 +29,7 @@ structure TC (K : Type) where
   w      : Nat
   bucket : Nat
   cm     : List (Entry K)
-deriving Repr
+deriving Repr, DecidableEq
 
 variable {K : Type} [DecidableEq K]
 
@@ -135,6 +135,58 @@ def TC.culledBy (s : TC K) (k : K) : Nat :=
 def culled (s : TC K) : List K → Nat
   | [] => 0
   | k :: ks => s.culledBy k + culled (s.add k) ks
+
+/-! ### calls that raise part-way
+
+A caller may hand `add` / `update` something the counter cannot take: an unhashable key (`add([])`,
+`update(['a', [], 'b'])`), a key whose `__hash__` raises, a mapping entry whose count is not an integer
+(`range(count)` raises), or an iterable / `items()` that itself raises half-way.  The call then raises, and
+what the statement calls "the additions" of that call are the ones performed BEFORE the exception.  An
+argument is written as a list of `Option K`: `some k` = an addition of `k` the call asks for, `none` = the
+point where the call raises.  (`add` stores the key before it counts it - fix `ba7c963` -, so the rejected
+element itself leaves no trace.) -/
+
+/-- the additions a call gets through: everything before the first element it cannot take -/
+def goodPrefix : List (Option K) → List K
+  | [] => []
+  | none :: _ => []
+  | some k :: xs => k :: goodPrefix xs
+
+/-- does the call raise? -/
+def hasBad : List (Option K) → Bool
+  | [] => false
+  | none :: _ => true
+  | some _ :: xs => hasBad xs
+
+/-- a mapping / keyword argument as a list of additions; `none` = an entry that makes the call raise
+    (non-integer count, unhashable key with a positive count, `items()` raising at this point) -/
+def expandX (ps : List (Option (K × Nat))) : List (Option K) :=
+  ps.flatMap fun
+    | none => [none]
+    | some kc => List.replicate kc.2 (some kc.1)
+
+/-- one `add` / `update` call as the caller experiences it: the new state and whether it raised -/
+def TC.attempt (s : TC K) (xs : List (Option K)) : TC K × Bool := (s.addAll (goodPrefix xs), hasBad xs)
+
+/-- a public call: one that returns (`ok`), or one that may raise part-way (`partly`) -/
+inductive Call (K : Type) where
+  | ok (op : Op K)
+  | partly (xs : List (Option K))
+
+/-- what a call amounts to for the statement: the operation made of the additions that took effect -/
+def Call.effective : Call K → Op K
+  | .ok op => op
+  | .partly xs => .updateKeys (goodPrefix xs)
+
+def TC.call (s : TC K) : Call K → TC K
+  | .ok op => s.step op
+  | .partly xs => (s.attempt xs).1
+
+def TC.runCalls (w : Nat) (calls : List (Call K)) : TC K := calls.foldl TC.call (TC.init w)
+
+/-- the behaviour BEFORE fix `ba7c963`: `add(unhashable)` bumped `total` and then raised (no compaction
+    check, no dict change) - kept only to state what was wrong with it (`rejected_key_counted_breaks_statement`) -/
+def TC.bumpOnly (s : TC K) : TC K := { s with total := s.total + 1 }
 
 /-- `self.update(other)` with another ThresholdCounter: `other.items()` is the mapping
     (`other` may be `self`: `items()` returns a list, i.e. a snapshot) -/
